@@ -69,6 +69,21 @@ fn apply_delta(sd: &mut Seeds, d: Delta, rng: &mut impl RngCore) -> String {
     }
 }
 
+/// leaf keys with special VALUES, set consistently on both sides (non-punctured leaves only): an all-zero key (the value the
+/// punctured slot holds), an all-ones key, two equal leaves in one tree.  Keys are arbitrary 32-byte strings.
+fn special_keys(sd: &mut Seeds, kind: usize, rng: &mut impl RngCore) -> &'static str {
+    let mut set = |sd: &mut Seeds, i: usize, j: usize, v: [u8; LAMBDA_C_BYTES]| {
+        if sd.r.random_choices[i] as usize == j { return; }
+        sd.s.otp_enc_keys[i][j] = v; sd.r.otp_dec_keys[i][j] = v;
+    };
+    match kind % 4 {
+        0 => { let i = rng.gen_range(0..NB); let j = (sd.r.random_choices[i] as usize + 1 + rng.gen_range(0..SOFT_SPOKEN_Q - 1)) % SOFT_SPOKEN_Q; set(sd, i, j, [0u8; LAMBDA_C_BYTES]); "keys:one-zero-leaf" }
+        1 => { for i in 0..NB { let j = (sd.r.random_choices[i] as usize + 1 + i) % SOFT_SPOKEN_Q; set(sd, i, j, [0u8; LAMBDA_C_BYTES]); } "keys:zero-leaf-in-every-tree" }
+        2 => { let i = rng.gen_range(0..NB); for j in 0..SOFT_SPOKEN_Q { set(sd, i, j, [0xff; LAMBDA_C_BYTES]); } "keys:all-ones-tree" }
+        _ => { let i = rng.gen_range(0..NB); let v = sd.s.otp_enc_keys[i][(sd.r.random_choices[i] as usize + 1) % SOFT_SPOKEN_Q]; for j in 0..SOFT_SPOKEN_Q { set(sd, i, j, v); } "keys:equal-leaves-tree" }
+    }
+}
+
 fn nabla_is_zero(sd: &Seeds) -> bool { sd.r.random_choices.iter().all(|d| d & (SOFT_SPOKEN_Q as u8 - 1) == 0) }
 
 // ------------------------------------------------------------------ running the real code
@@ -227,6 +242,7 @@ pub fn run_c03(o: &Opts, drv: &mut Driver, rep: &mut Report) {
                          else { rep.hist("seeds:synthetic"); synthetic_seeds(&mut rng) };
             let dtag = apply_delta(&mut sd, *d, &mut rng);
             rep.hist(&dtag);
+            if k % 3 == 1 && (sd.r.random_choices.iter().all(|d| (*d as usize) < SOFT_SPOKEN_Q)) { let kt = special_keys(&mut sd, k / 3, &mut rng); rep.hist(kt); }
             rep.hist(&format!("sid-len:{}", sid.len()));
             let c = Case { sid, sd, choices: pats[pi].1, tape: gen_tape(&mut rng, k), tag: pats[pi].0.into() };
             honest(drv, rep, "honest", &c, true);
